@@ -131,6 +131,9 @@ theorem Truth.addOk {n : String} {r : R} {ms ms1 ms' : MS R} (h : Truth ms) (hp 
   have := (h.1 m hmem hok).1
   omega
 
+theorem Truth.renew {flt : Option Addr} {ms : MS R} (h : Truth ms) : Truth (renewMS flt ms) :=
+  h.same (by simp) (by simp) (by simp) (Nat.le_of_eq (by simp))
+
 /-! ### stream shape and truthfulness through the then step -/
 
 /-- on the current node: `base` messages before it, `done` instances handled -/
@@ -151,6 +154,10 @@ theorem deployInsts_stream (n : String) (base : Nat) (flt : Option Addr) :
       have := ih (done ++ [r]) ms' h'
       rwa [List.append_assoc, List.singleton_append] at this
     unfold deployInsts
+    rw [wp_bind, wp_renew]
+    simp only [wpK_ok]
+    have h : SI base done (renewMS flt ms) := ⟨by simpa using h.1, h.2.renew⟩
+    generalize renewMS flt ms = ms at h ⊢
     rw [wp_bind, wp_getSt]
     simp only [wpK_ok]
     rw [wp_bind, wp_attempt, wp_bind]
@@ -211,6 +218,10 @@ theorem deployNode_stream (pre : List (String × List R)) (p : String × List R)
     refine ⟨?_, h'.2⟩
     rw [planned_append_single, h'.1]; simp
   unfold deployNode
+  rw [wp_bind, wp_renew]
+  simp only [wpK_ok]
+  have h : S pre (renewMS flt ms) := ⟨by simpa using h.1, h.2.renew⟩
+  generalize renewMS flt ms = ms at h ⊢
   rw [wp_bind, wp_attempt, wp_readStep]
   split
   · simp only [attK_fail, wpK_ok, Bool.false_eq_true, if_false]
@@ -329,9 +340,9 @@ theorem createTxn_stream (a : CreateArgs R) (flt : Option Addr) (ms : MS R) (hm 
     simp only [txnK1_fail_some]
     have h1' : Frozen [⟨"", 0, false, none⟩] ms.st.wls ms.st.cts { ms1 with msgs := ms1.msgs ++ [⟨"", 0, false, none⟩] } :=
       ⟨by simp [h1.1], h1.2.1, h1.2.2⟩
-    have := pres_createRollback (I := Frozen [⟨"", 0, false, none⟩] ms.st.wls ms.st.cts)
-      (pres_frozen_step _ _ _) a true flt _ h1'
-    have hmsgs : (exec (createRollback a true) flt { ms1 with msgs := ms1.msgs ++ [⟨"", 0, false, none⟩] }).msgs = [⟨"", 0, false, none⟩] := this.1
+    have := pres_withDetached (fun _ _ h => h) (pres_createRollback (I := Frozen [⟨"", 0, false, none⟩] ms.st.wls ms.st.cts)
+      (pres_frozen_step _ _ _) a true) flt _ h1'
+    have hmsgs : (exec (withDetached (createRollback a true)) flt { ms1 with msgs := ms1.msgs ++ [⟨"", 0, false, none⟩] }).msgs = [⟨"", 0, false, none⟩] := this.1
     refine ⟨Or.inl this, ?_, by rw [hmsgs]; simp [okIds]⟩
     intro m hmem hok
     rw [hmsgs] at hmem
@@ -339,7 +350,7 @@ theorem createTxn_stream (a : CreateArgs R) (flt : Option Addr) (ms : MS R) (hm 
     rw [hmem] at hok
     cases hok
   | ok u =>
-    simp only [txnK1_ok]
+    simp only [txnK1_ok_some]
     have hS : S ([] : List (String × List R)) ms1 := by
       refine ⟨by rw [h1.1]; rfl, ?_, by rw [h1.1]; exact List.nodup_nil⟩
       intro m hmem
@@ -362,8 +373,8 @@ theorem createTxn_stream (a : CreateArgs R) (flt : Option Addr) (ms : MS R) (hm 
       · simp only [wp_pure, txnK2_ok]
         exact ⟨Or.inr h2.1, h2.2⟩
       · simp only [wp_refuse, txnK2_fail_some]
-        have := pres_createRollback (I := fun ms : MS R => ms.msgs.length = planned a.plan ∧ Truth ms)
-          (pres_stream_step _) a false flt ms2 h2
+        have := pres_withDetached (fun _ _ h => h) (pres_createRollback (I := fun ms : MS R => ms.msgs.length = planned a.plan ∧ Truth ms)
+          (pres_stream_step _) a false) flt ms2 h2
         exact ⟨Or.inr this.1, this.2⟩
 
 /-! ### cleanliness of the whole call -/
@@ -446,6 +457,9 @@ theorem Clean.deployMsg {s0 : State R} {n : String} {r : R} {ms ms1 ms' : MS R} 
       · exact h3 c (e ▸ hc)
       · rw [e] at hc; exact h3 c (List.mem_filter.mp hc).1
 
+theorem Clean.renew {s0 : State R} {flt : Option Addr} {ms : MS R} (h : Clean s0 ms) : Clean s0 (renewMS flt ms) :=
+  h.same (by simp) (by simp) (by simp) (Nat.le_of_eq (by simp)) (by simp) (by simp)
+
 theorem deployInsts_clean (s0 : State R) (hids : ∀ w ∈ s0.wls, w.id < s0.next) (n : String) (flt : Option Addr) :
     ∀ (rs : List R) (ms : MS R), Clean s0 ms → wp (deployInsts n rs) (fun _ ms' => Clean s0 ms') flt ms := by
   intro rs
@@ -454,6 +468,10 @@ theorem deployInsts_clean (s0 : State R) (hids : ∀ w ∈ s0.wls, w.id < s0.nex
   | cons r rest ih =>
     intro ms h
     unfold deployInsts
+    rw [wp_bind, wp_renew]
+    simp only [wpK_ok]
+    have h : Clean s0 (renewMS flt ms) := h.renew
+    generalize renewMS flt ms = ms at h ⊢
     rw [wp_bind, wp_getSt]
     simp only [wpK_ok]
     rw [wp_bind, wp_attempt, wp_bind]
@@ -477,6 +495,10 @@ theorem deployNode_clean (s0 : State R) (hids : ∀ w ∈ s0.wls, w.id < s0.next
     Pres (Clean s0) (deployNode p.1 p.2) := by
   intro flt ms h
   unfold deployNode
+  rw [wp_bind, wp_renew]
+  simp only [wpK_ok]
+  have h : Clean s0 (renewMS flt ms) := h.renew
+  generalize renewMS flt ms = ms at h ⊢
   rw [wp_bind, wp_attempt, wp_readStep]
   split
   · simp only [attK_fail, wpK_ok, Bool.false_eq_true, if_false]
@@ -509,7 +531,7 @@ theorem create_clean (a : CreateArgs R) (flt : Option Addr) (ms : MS R) (hm : ms
     exact pres_bind (pres_attempt (hstep _ _ _ he)) (fun _ => pres_pure _ _)
   have htxn : Pres (Clean ms.st) (createTxn a) := by
     unfold createTxn
-    apply pres_txn
+    apply pres_txn (fun _ _ h => h)
     · intro flt' ms' h'
       rw [wp_withFailMsg]
       apply wp_mono (pres_createCond hstep (fun _ _ _ _ h => h) a flt' ms' h')
@@ -531,17 +553,20 @@ theorem create_clean (a : CreateArgs R) (flt : Option Addr) (ms : MS R) (hm : ms
   apply pres_bind (pres_attempt htxn) _ flt ms h0
   intro _
   apply pres_bind
-  · unfold deleteMarkers
+  · apply pres_withDetached (fun _ _ h => h)
+    unfold deleteMarkers
     apply pres_bind (fun _ _ h => h)
     intro msx
     exact pres_ite _ (pres_forEach _ (fun p _ => hinert _ _ _ (keepsRC_rmMarker _))) (pres_pure _ _)
   · intro _
     apply pres_bind
-    · unfold commitProcessing
+    · apply pres_withDetached (fun _ _ h => h)
+      unfold commitProcessing
       apply pres_bind (fun _ _ h => h)
       intro msx
       exact pres_forEach _ (fun p _ => hinert _ _ _ (keepsRC_walRm _ _ _))
     · intro _
+      apply pres_withDetached (fun _ _ h => h)
       unfold commitAllocated
       apply pres_bind (fun _ _ h => h)
       intro msx
@@ -575,19 +600,22 @@ theorem create_stream (a : CreateArgs R) (flt : Option Addr) (ms : MS R) (hm : m
   rw [wp_bind, wp_attempt]
   apply wp_mono (createTxn_stream a flt ms hm)
   intro o ms1 h1
-  have tail : Pres (StreamPost a ms.st) (do deleteMarkers a; commitProcessing a; commitAllocated) := by
+  have tail : Pres (StreamPost a ms.st) (do withDetached (deleteMarkers a); withDetached (commitProcessing a); withDetached commitAllocated) := by
     apply pres_bind
-    · unfold deleteMarkers
+    · apply pres_withDetached (fun _ _ h => h)
+      unfold deleteMarkers
       apply pres_bind (fun _ _ h => h)
       intro msx
       exact pres_ite _ (pres_forEach _ (fun p _ => hinert _ _ _ (keepsRC_rmMarker _))) (pres_pure _ _)
     · intro _
       apply pres_bind
-      · unfold commitProcessing
+      · apply pres_withDetached (fun _ _ h => h)
+        unfold commitProcessing
         apply pres_bind (fun _ _ h => h)
         intro msx
         exact pres_forEach _ (fun p _ => hinert _ _ _ (keepsRC_walRm _ _ _))
       · intro _
+        apply pres_withDetached (fun _ _ h => h)
         unfold commitAllocated
         apply pres_bind (fun _ _ h => h)
         intro msx
@@ -615,19 +643,19 @@ theorem loadL_perm {l1 l2 : List (Wl R)} (h : l1.Perm l2) (n : String) : loadL l
 /-- every message of a create call reports failure ⇒ the call changed nothing: same nodes, capacity,
 usage and records, and no new container -/
 theorem create_all_failed (a : CreateArgs R) (hnd : (a.plan.map (·.1)).Nodup) (flt : Option Addr) (s : State R)
-    (h : Inv s) :
-    okIds (run (create a) flt s).2.msgs = [] →
-      AbsEq s (run (create a) flt s).2.st ∧ ∀ c ∈ (run (create a) flt s).2.st.cts, ∃ c0 ∈ s.cts, c0.id = c.id := by
+    (cancel : Option (Addr × Bool)) (h : Inv s) :
+    okIds (run (create a) flt s cancel).2.msgs = [] →
+      AbsEq s (run (create a) flt s cancel).2.st ∧ ∀ c ∈ (run (create a) flt s cancel).2.st.cts, ∃ c0 ∈ s.cts, c0.id = c.id := by
   intro hok
-  have hc : Clean s (run (create a) flt s).2 := create_clean a flt { st := s } rfl h.2.1
-  have hi : Inv (run (create a) flt s).2.st := create_inv a hnd flt { st := s } ⟨h, rfl, rfl⟩
+  have hc : Clean s (run (create a) flt s cancel).2 := create_clean a flt { st := s, cancel := cancel } rfl h.2.1
+  have hi : Inv (run (create a) flt s cancel).2.st := create_inv a hnd flt { st := s, cancel := cancel } ⟨h, rfl, rfl⟩
   obtain ⟨c1, c2, c3, _, c5, c6⟩ := hc
   rw [hok] at c1 c3
-  have hmem : ∀ w, w ∈ (run (create a) flt s).2.st.wls ↔ w ∈ s.wls :=
+  have hmem : ∀ w, w ∈ (run (create a) flt s cancel).2.st.wls ↔ w ∈ s.wls :=
     fun w => ⟨fun hw => (c1 w hw).elim id (fun h' => by cases h'), c2 w⟩
   refine ⟨⟨c6, c5, ?_, hmem⟩, fun c hc' => (c3 c hc').elim id (fun h' => by cases h')⟩
   funext m
-  have hp : (run (create a) flt s).2.st.wls.Perm s.wls :=
+  have hp : (run (create a) flt s cancel).2.st.wls.Perm s.wls :=
     (List.perm_ext_iff_of_nodup (nodup_of_map_nodup _ _ hi.1) (nodup_of_map_nodup _ _ h.1)).mpr hmem
   have e1 := hi.2.2 m
   have e0 := h.2.2 m
